@@ -39,7 +39,7 @@ func putSetting(db clickhouse.Conn, tp string, name string, value string) error 
 	_name := fmt.Sprintf(`{"type":%s, "name":%s`, strconv.Quote(tp), strconv.Quote(name))
 	fp := heputils.FingerprintLabelsDJBHashPrometheus([]byte(_name))
 	err := db.Exec(context.Background(), `INSERT INTO settings (fingerprint, type, name, value, inserted_at)
-VALUES ($1, $2, $3, $4, NOW())`, fp, tp, name, value)
+VALUES ($1, $2, $3, $4, now64(9))`, fp, tp, name, value)
 	return err
 }
 
@@ -72,6 +72,12 @@ func rotateTables(db clickhouse.Conn, clusterName string, distributed bool, days
 	if err != nil || val == rotateTTLStr {
 		return err
 	}
+	// From the first ALTER on the recorded value no longer describes the tables: drop it first, so that an
+	// interrupted run is redone even if the configuration is changed back before the next run.
+	err = putSetting(db, "rotate", settingName, "")
+	if err != nil {
+		return err
+	}
 	for _, table := range tables {
 		q := fmt.Sprintf(`ALTER TABLE %s %s
 MODIFY SETTING ttl_only_drop_parts = 1, merge_with_ttl_timeout = 3600, index_granularity = 8192`, table, onCluster)
@@ -100,6 +106,11 @@ func storagePolicyUpdate(db clickhouse.Conn, clusterName string,
 	}
 	val, err := getSetting(db, distributed, "rotate", setting)
 	if err != nil || storagePolicy == "" || val == storagePolicy {
+		return err
+	}
+	// see rotateTables: the recorded value is dropped before the first ALTER
+	err = putSetting(db, "rotate", setting, "")
+	if err != nil {
 		return err
 	}
 	for _, tbl := range tables {
